@@ -305,6 +305,8 @@ class TypedNode(Node):
         if source_node is not None:
             # If creating an inherited node, use the parent class as constructor
             child_class = child.__class__
+            if data_id is None:
+                data_id = source_node._data_id
 
             node = child_class(
                 kind,
